@@ -66,6 +66,12 @@ psutil_proc_ioprio_set(PyObject *self, PyObject *args) {
             args, _Py_PARSE_PID "ii", &pid, &ioclass, &iodata)) {
         return NULL;
     }
+    // Shifting a negative or too large int is undefined behaviour.
+    if (ioclass < 0 || ioclass > 7 || iodata < 0 ||
+        (unsigned long)iodata > IOPRIO_PRIO_MASK) {
+        errno = EINVAL;
+        return PyErr_SetFromErrno(PyExc_OSError);
+    }
     ioprio = IOPRIO_PRIO_VALUE(ioclass, iodata);
     retval = ioprio_set(IOPRIO_WHO_PROCESS, pid, ioprio);
     if (retval == -1)
